@@ -468,3 +468,25 @@ Theorem C20_import_order_irrelevant : forall (h t : Z) (g g' : Genesis),
   /\ owner_of b = owner_of a /\ own_prov b = own_prov a /\ own_bind b = own_bind a.
 Proof. exact GapC20.C20_import_order_irrelevant. Qed.
 Print Assumptions C20_import_order_irrelevant.
+
+(* ------------------------------------------------------------------------------------------
+   Known finding K3 inside the model (DESIGN.md 12.10). `XCallMod` (Model/ModSvc.v) is the
+   module-service branch of MsgCallService, executed by `xstep` on top of `pstep`; exclusion
+   X-K3 is "the history contains no XCallMod" (`k3_free`).  The statements below are refuted /
+   proved in Proofs/K3.v on concrete reachable witnesses (corpus history W10) by vm_compute. *)
+From Coq Require Import List ZArith Bool Lia.
+From SVC Require Import Base.AMap Base.Res Base.Dec Model.Types Model.Pricing Model.Handlers Model.EndBlock Model.Step Model.ParamStep Model.ModSvc Model.Genesis Proofs.Inv Proofs.ParamChange Proofs.K3.
+Import ListNotations.
+Open Scope Z_scope.
+
+Theorem C20_K3_withdraw_panics_refuted :
+  exists
+           (cfg : Params) (h0 t0 : Z) (f : list (Z * Z)) (ops : list XOp) (cfg' : Params) 
+         (s : State) (owner prov : Z),
+           wf_cfg cfg /\
+           1 <= h0 /\
+           0 <= t0 /\
+           wf_funding f /\
+           xrun (cfg, init h0 t0 f) ops = (cfg', s) /\ handle cfg' s (OWithdraw owner prov true) = Panic.
+Proof. exact K3.K3_withdraw_panics_refuted. Qed.
+Print Assumptions C20_K3_withdraw_panics_refuted.
